@@ -458,7 +458,7 @@ impl Check for C04Check {
         });
         let expect_ok = matches!(direct, Some(Class::Ok(_)));
         let mut first: Option<(Vec<usize>, Class)> = None;
-        let mut narrowed = |p: &Vec<usize>, q: &Vec<usize>| -> Option<Value> {
+        let narrowed = |p: &Vec<usize>, q: &Vec<usize>| -> Option<Value> {
             let mut s = scn.clone();
             s.orders = Orders::Explicit(vec![p.clone(), q.clone()]);
             Some(serde_json::to_value(s).unwrap())
